@@ -802,8 +802,10 @@ def search(res, tier, boost=False):
             res.violation('C08:not-linear-in-u0:vector', dict(domain=domain, values=[[float(x) for x in v_] for v_ in vp]))
         # pointwise domain-quadrature evaluation vs closed form for t >= 0.05 side^2
         if problem == 'Singular' or domain != 'LShape':
-            for _ in range(3):
-                t = rng.uniform(0.05 * side**2, 1.0 * side**2)
+            for it_ in range(3 + (8 if domain == 'LShape' else 3)):
+                # later draws: SMALL times (0.015..0.03 side^2; the shipped domain rule is still accurate to 1e-7 there, 7e-6
+                # at 0.01) at points all around the curve - on the non-convex L-shape also next to the re-entrant corner
+                t = rng.uniform(0.05 * side**2, 1.0 * side**2) if it_ < 3 else rng.uniform(0.015 * side**2, 0.03 * side**2)
                 xh = rng.uniform(0, float(gamma.gamma_length))
                 x = gamma.eval(np.array([xh])).reshape(2, 1)
                 ev = M0.evaluate(t, x)
